@@ -2013,6 +2013,44 @@ func clientWiring(c *Ctx, id string) {
 			}
 		})
 		key := "wiring:" + sp.what + "@" + fname(sp.fn)
+		// the step may sit in a helper of the same package that the function calls (a context threaded through, a
+		// block moved out): then the conditions are those of the whole chain of calls
+		var chain []ssa.Instruction
+		if len(sites) == 0 {
+			type hit struct {
+				site  ssa.Instruction
+				chain []ssa.Instruction
+			}
+			var hits []hit
+			var walk func(f *ssa.Function, ch []ssa.Instruction, d int, seen map[*ssa.Function]bool)
+			walk = func(f *ssa.Function, ch []ssa.Instruction, d int, seen map[*ssa.Function]bool) {
+				if d == 0 || seen[f] {
+					return
+				}
+				seen[f] = true
+				allInstrs(f, func(in ssa.Instruction) {
+					cc := callOf(in)
+					if cc == nil {
+						return
+					}
+					if f != sp.fn && sp.match(cc) {
+						hits = append(hits, hit{in, append([]ssa.Instruction{}, ch...)})
+						return
+					}
+					if _, isCall := in.(*ssa.Call); !isCall {
+						return
+					}
+					if g := cc.StaticCallee(); g != nil && g.Blocks != nil && w.inModule(g) && g.Pkg == sp.fn.Pkg {
+						walk(g, append(append([]ssa.Instruction{}, ch...), in), d-1, seen)
+					}
+				})
+			}
+			walk(sp.fn, nil, 4, map[*ssa.Function]bool{})
+			if len(hits) == 1 {
+				sites = []ssa.Instruction{hits[0].site}
+				chain = hits[0].chain
+			}
+		}
 		if len(sites) != 1 {
 			c.Fail(id, key, sp.fn.Pos(), "%d calls of %s in %s (expected exactly one)", len(sites), sp.what, fname(sp.fn))
 			continue
@@ -2020,7 +2058,12 @@ func clientWiring(c *Ctx, id string) {
 		in := sites[0]
 		_, plain := in.(*ssa.Call)
 		var got []string
-		for _, g := range liveGuards(in.Block()) {
+		var allGuards []Guard
+		for _, ci := range chain {
+			allGuards = append(allGuards, liveGuards(ci.Block())...)
+		}
+		allGuards = append(allGuards, liveGuards(in.Block())...)
+		for _, g := range allGuards {
 			v, pol := stripNot(g.Cond, g.Branch)
 			if f, _ := flagRead(v); f == nil {
 				// a predicate method that returns the flag test
